@@ -1138,7 +1138,7 @@ func (r *raft) Step(m *pb.Message) error {
 		}
 
 	case m.GetTerm() < r.Term:
-		if (r.checkQuorum || r.preVote) && (m.GetType() == pb.MsgHeartbeat || m.GetType() == pb.MsgApp) {
+		if m.GetType() == pb.MsgHeartbeat || m.GetType() == pb.MsgApp {
 			// We have received messages from a leader at a lower term. It is possible
 			// that these messages were simply delayed in the network, but this could
 			// also mean that this node has advanced its term number during a network
@@ -1160,6 +1160,14 @@ func (r *raft) Step(m *pb.Message) error {
 			// with "pb.MsgAppResp" of higher term would force leader to step down.
 			// However, this disruption is inevitable to free this stuck node with
 			// fresh election. This can be prevented with Pre-Vote phase.
+			//
+			// The response is sent regardless of this node's own checkQuorum and
+			// preVote settings: whether its MsgVotes are ignored depends on the
+			// receivers' settings, not on its own, so in a cluster with mixed
+			// settings (e.g. while CheckQuorum is being rolled out) a node without
+			// either flag would otherwise stay stuck at its higher term forever.
+			// Without the flags on the receivers the MsgVote itself would already
+			// have moved them to the higher term, so nothing changes there.
 			r.send(&pb.Message{To: m.From, Type: pb.MsgAppResp.Enum()})
 		} else if m.GetType() == pb.MsgPreVote {
 			// Before Pre-Vote enable, there may have candidate with higher term,
